@@ -704,3 +704,87 @@ Proof.
   rewrite text_string_roundtrip, Hws.
   rewrite (text_string_value_roundtrip a2 bs2 rest f H). reflexivity.
 Qed.
+
+(* ---------- the parser is total: the fuel never runs out ---------- *)
+Local Opaque skipn firstn.
+Lemma parse_escape_len c t1 out rest : parse_escape c t1 = EscOk out rest -> (length rest <= length t1)%nat.
+Proof.
+  unfold parse_escape. cbv zeta. cbn [count_pref]. destruct (is_octd c) eqn:Eo;
+  repeat match goal with
+         | |- context [if ?c then _ else _] => destruct c
+         | |- context [match parse_uint ?b ?l with _ => _ end] => destruct (parse_uint b l)
+         | |- context [match skipn ?k ?l with _ => _ end] => let E := fresh "E" in destruct (skipn k l) as [|? [|? ?]] eqn:E
+         end;
+    intros H; try discriminate H; injection H as _ Hr; rewrite <- Hr; clear Hr;
+    repeat match goal with
+           | E : skipn _ _ = _ |- _ => apply (f_equal (@length byte)) in E; rewrite skipn_length in E; cbn [length] in E
+           end;
+    rewrite ?skipn_length; cbn [length]; lia.
+Qed.
+Local Transparent skipn firstn.
+
+Lemma dec_step_progress q b0 t0 :
+  match dec_step_of q (b0 :: t0) with
+  | DOut _ rest => (length rest < length (b0 :: t0))%nat
+  | DRaw n => (1 <= n)%nat
+  | _ => True
+  end.
+Proof.
+  unfold dec_step_of.
+  repeat match goal with |- context [if ?c then _ else _] => destruct c end; try exact I.
+  - destruct t0 as [|c t1]; [exact I|].
+    destruct (parse_escape c t1) as [out rest|e] eqn:E; [|exact I].
+    apply parse_escape_len in E. cbn [length]. lia.
+  - apply decode_rune_nonempty_pos.
+Qed.
+
+Lemma parse_escape_err_not_fuel c t1 e : parse_escape c t1 = EscErr e -> e <> SFuel.
+Proof.
+  unfold parse_escape. cbv zeta.
+  repeat match goal with
+         | |- context [if ?c then _ else _] => destruct c
+         | |- context [match parse_uint ?b ?l with _ => _ end] => destruct (parse_uint b l)
+         | |- context [match skipn ?k ?l with _ => _ end] => destruct (skipn k l) as [|? [|? ?]]
+         end; intros H; try discriminate H; injection H as <-; discriminate.
+Qed.
+
+Lemma dec_step_err_not_fuel q inp e : dec_step_of q inp = DErr e -> e <> SFuel.
+Proof.
+  unfold dec_step_of.
+  repeat match goal with |- context [if ?c then _ else _] => destruct c end;
+    try (intros H; try discriminate H; injection H as <-; discriminate).
+  destruct inp as [|x [|c t1]]; try (intros H; injection H as <-; discriminate).
+  destruct (parse_escape c t1) as [out rest|e0] eqn:E; [discriminate|].
+  intros H; injection H as <-. eapply parse_escape_err_not_fuel; eauto.
+Qed.
+
+Lemma sprepend_not_fuel p r : r <> SErr SFuel -> sprepend p r <> SErr SFuel.
+Proof. destruct r as [[o rest]|e]; cbn [sprepend]; congruence. Qed.
+
+Lemma parse_loop_run_total q : forall f inp, (length inp <= f)%nat -> parse_loop_run f q inp <> SErr SFuel.
+Proof.
+  induction f as [|f IH]; intros inp Hl.
+  - destruct inp; [discriminate|cbn in Hl; lia].
+  - destruct inp as [|b0 t0]; [discriminate|].
+    rewrite parse_loop_run_S by discriminate.
+    pose proof (dec_step_progress q b0 t0) as Hp.
+    destruct (dec_step_of q (b0 :: t0)) as [e|rest|out rest|n] eqn:Ed.
+    + intros H. injection H as ->. exact (dec_step_err_not_fuel _ _ _ Ed eq_refl).
+    + discriminate.
+    + apply sprepend_not_fuel, IH. cbn [length] in *. lia.
+    + cbv zeta. apply sprepend_not_fuel, IH. rewrite skipn_length. cbn [length] in *. lia.
+Qed.
+
+(* parseString / UnmarshalString never run out of fuel: on EVERY input the
+   model returns Ok, unexpected-EOF or a syntax error *)
+Theorem parse_string_total inp : parse_string inp <> SErr SFuel.
+Proof.
+  unfold parse_string. destruct inp as [|q t]; [discriminate|]. cbv zeta.
+  apply sprepend_not_fuel, parse_loop_run_total. rewrite skipn_length. lia.
+Qed.
+
+Theorem unmarshal_string_total inp : unmarshal_string inp <> SErr SFuel.
+Proof.
+  unfold unmarshal_string. pose proof (parse_string_total inp).
+  destruct (parse_string inp) as [[o r]|e]; congruence.
+Qed.
